@@ -14,6 +14,7 @@
 #include <string>
 #include <unistd.h>
 
+#include "fillnew.hpp"
 #include "hexsim.hpp"
 #include "vjson.hpp"
 
@@ -39,6 +40,9 @@ int main(int argc, char **argv) {
     vjson::Obj o;
     o.num("fill", fill);
     int rv = 0; bool running = false; std::string err;
+    // fresh heap blocks and the stack below this frame hold the same planted byte as the object's storage
+    int fb = fill == 0 ? 0x00 : fill == 1 ? 0xA5 : fill == 2 ? 0xFF : 0x3C;
+    fillnew::set(fb); fillnew::poisonStack(fb);
     {
       hexsim::Processor *p = new (storage) hexsim::Processor(in, out, maxCycles);
       try {
@@ -49,6 +53,7 @@ int main(int argc, char **argv) {
       } catch (const std::exception &e) { err = e.what(); }
       p->~Processor();
     }
+    fillnew::set(-1);
     o.snum("rv", rv); o.boolean("still_running", running); o.str("error", err);
     o.hex("out", out.str());
     o.num("consumed", (in.eof() || in.fail()) ? input.size() : (size_t)in.tellg());
